@@ -148,3 +148,157 @@ func (ms *MemoSet) NCells() int { return len(ms.evs) }
 
 // MemoDump is a one-shot MemoSet dump.
 func MemoDump(kb *ast.KnowledgeBase) string { return NewMemoSet(kb).Dump() }
+
+// ShapeSig renders the node graph of an instance up to isomorphism: nodes are numbered in the
+// order of a deterministic walk from the rule entries (sorted by name), every reference is
+// rendered as the number of its target (so sharing is visible), scalar fields by value (the
+// random AstID and the memo cells excluded), and the working memory's registration maps by the
+// numbers of the nodes they hold ("?" for a node no rule reaches). Two instances with the same
+// signature have the same futures: the engine's behaviour is a function of this graph, the facts
+// and the iteration orders the harness controls. Used to skip clone orders that produce an
+// instance isomorphic to one already explored.
+func ShapeSig(kb *ast.KnowledgeBase) string {
+	ids := map[uintptr]int{}
+	var b strings.Builder
+	var walk func(v reflect.Value)
+	walk = func(v reflect.Value) {
+		switch v.Kind() {
+		case reflect.Ptr:
+			if v.IsNil() {
+				b.WriteString("nil")
+				return
+			}
+			if v.Elem().Kind() != reflect.Struct {
+				b.WriteString("*")
+				return
+			}
+			p := v.Pointer()
+			if id, ok := ids[p]; ok {
+				fmt.Fprintf(&b, "#%d", id)
+				return
+			}
+			ids[p] = len(ids)
+			fmt.Fprintf(&b, "%d:%s{", ids[p], v.Elem().Type().Name())
+			walk(v.Elem())
+			b.WriteString("}")
+		case reflect.Interface:
+			if v.IsNil() {
+				b.WriteString("nil")
+			} else {
+				walk(v.Elem())
+			}
+		case reflect.Struct:
+			t := v.Type()
+			if t.PkgPath() == "reflect" || t.PkgPath() == "sync" || t.PkgPath() == "time" {
+				return
+			}
+			for i := 0; i < t.NumField(); i++ {
+				f := t.Field(i)
+				if !f.IsExported() || skipFields[f.Name] || f.Name == "AstID" || f.Name == "Evaluated" {
+					continue
+				}
+				b.WriteString(f.Name)
+				b.WriteString("=")
+				walk(v.Field(i))
+				b.WriteString(";")
+			}
+		case reflect.Slice, reflect.Array:
+			b.WriteString("[")
+			for i := 0; i < v.Len(); i++ {
+				walk(v.Index(i))
+				b.WriteString(",")
+			}
+			b.WriteString("]")
+		case reflect.Map:
+			keys := v.MapKeys()
+			if v.Type().Key().Kind() == reflect.String {
+				sort.Slice(keys, func(i, j int) bool { return keys[i].String() < keys[j].String() })
+			}
+			b.WriteString("{")
+			for _, k := range keys {
+				fmt.Fprintf(&b, "%q:", k.String())
+				walk(v.MapIndex(k))
+				b.WriteString(",")
+			}
+			b.WriteString("}")
+		case reflect.String:
+			fmt.Fprintf(&b, "%q", v.String())
+		case reflect.Bool:
+			fmt.Fprintf(&b, "%v", v.Bool())
+		case reflect.Int, reflect.Int8, reflect.Int16, reflect.Int32, reflect.Int64:
+			fmt.Fprintf(&b, "%d", v.Int())
+		case reflect.Uint, reflect.Uint8, reflect.Uint16, reflect.Uint32, reflect.Uint64:
+			fmt.Fprintf(&b, "%d", v.Uint())
+		case reflect.Float32, reflect.Float64:
+			fmt.Fprintf(&b, "%v", v.Float())
+		}
+	}
+	for _, e := range SortedEntries(kb) {
+		name := e.RuleName
+		if e.Deleted {
+			name = "<deleted>"
+		}
+		fmt.Fprintf(&b, "RULE %s ", name)
+		// the tombstone's random name is a scalar field of the entry: render entries field-wise without it
+		ev := reflect.ValueOf(e)
+		p := ev.Pointer()
+		ids[p] = len(ids)
+		t := ev.Elem().Type()
+		for i := 0; i < t.NumField(); i++ {
+			f := t.Field(i)
+			if !f.IsExported() || skipFields[f.Name] || f.Name == "AstID" || f.Name == "RuleName" {
+				continue
+			}
+			b.WriteString(f.Name)
+			b.WriteString("=")
+			walk(ev.Elem().Field(i))
+			b.WriteString(";")
+		}
+		b.WriteString("\n")
+	}
+	// working-memory registration (unexported maps, read through reflection; pointer identity only)
+	idOf := func(v reflect.Value) string {
+		if v.Kind() != reflect.Ptr || v.IsNil() {
+			return "nil"
+		}
+		if id, ok := ids[v.Pointer()]; ok {
+			return fmt.Sprintf("#%d", id)
+		}
+		return "?"
+	}
+	if kb.WorkingMemory != nil {
+		wm := reflect.ValueOf(kb.WorkingMemory).Elem()
+		for _, mn := range []string{"expressionSnapshotMap", "expressionAtomSnapshotMap", "variableSnapshotMap"} {
+			m := wm.FieldByName(mn)
+			if !m.IsValid() || m.Kind() != reflect.Map {
+				continue
+			}
+			keys := m.MapKeys()
+			sort.Slice(keys, func(i, j int) bool { return keys[i].String() < keys[j].String() })
+			fmt.Fprintf(&b, "WM.%s{", mn)
+			for _, k := range keys {
+				fmt.Fprintf(&b, "%q:%s,", k.String(), idOf(m.MapIndex(k)))
+			}
+			b.WriteString("}\n")
+		}
+		for _, mn := range []string{"expressionVariableMap", "expressionAtomVariableMap"} {
+			m := wm.FieldByName(mn)
+			if !m.IsValid() || m.Kind() != reflect.Map {
+				continue
+			}
+			var rows []string
+			for _, k := range m.MapKeys() {
+				var deps []string
+				sl := m.MapIndex(k)
+				for i := 0; i < sl.Len(); i++ {
+					deps = append(deps, idOf(sl.Index(i)))
+				}
+				sort.Strings(deps)
+				rows = append(rows, idOf(k)+"->"+strings.Join(deps, " "))
+			}
+			sort.Strings(rows)
+			fmt.Fprintf(&b, "WM.%s{%s}\n", mn, strings.Join(rows, "; "))
+		}
+	}
+	return b.String()
+}
